@@ -11,7 +11,7 @@ use tracing::{debug, instrument};
 
 #[instrument(skip_all, name = "trace_create_stream", fields(iggy_user_id = session.get_user_id(), iggy_client_id = session.client_id))]
 pub async fn handle(
-    command: CreateStream,
+    mut command: CreateStream,
     sender: &mut SenderKind,
     session: &Session,
     system: &SharedSystem,
@@ -30,6 +30,8 @@ pub async fn handle(
                 )
             })?;
     let response = mapper::map_stream(stream);
+    // The assigned ID is journalled, otherwise the replay would have to guess it again.
+    command.stream_id = Some(stream.stream_id);
 
     let system = system.downgrade();
     system
